@@ -172,7 +172,11 @@ def dependent_required_exclude_defaults(job, failure) -> bool:
     the job runs with exclude_defaults"""
     if not job.get("opts", {}).get("exclude_defaults"):
         return False
-    return _rerun(job, failure, drop_dependent_required=True)
+    # on a discriminated union the discriminator-schema finding applies to the same output:
+    # the two recorded defects together must explain the failure
+    return _rerun(job, failure, drop_dependent_required=True) or _rerun(
+        job, failure, drop_dependent_required=True, repair_disc=True
+    )
 
 
 def decimal_through_float(job, failure) -> bool:
